@@ -203,10 +203,17 @@ its last lookup (or of its caching when it was never looked up) -/
 def c19tick (pre o : Obs) (idleSince : List (RType × String × Nat)) (now : Nat) : Option String :=
   let judge := idleSince.filterMap (fun (rt, n, t) =>
     let cachedBefore := (lookupC pre rt n).isSome
-    if !cachedBefore then none else
     let mustGo := now - t > 30 && !(rt = .lds && n = "virtualInbound")
     let gone := (lookupC o rt n).isNone
     let unsub := !((o.interest rt).getD []).contains n
+    if !cachedBefore then
+      -- cached once, removed by the control plane since (a complete update without it), still subscribed and idle:
+      -- the sweep withdraws it like any other idle name
+      if !((pre.interest rt).getD []).contains n || !mustGo then none
+      else if !unsub then some s!"C19.sweep: {repr rt}/{n} (removed by the control plane, idle since {t}) is still in the interest set after the sweep at {now}"
+      else if !(o.reqs.any (fun q => q.rt = rt && !q.names.contains n)) then some s!"C19.sweep: no request without {repr rt}/{n} was sent"
+      else none
+    else
     if mustGo && !gone then some s!"C19.sweep: {repr rt}/{n} idle since {t} was not removed by the sweep at {now}"
     else if mustGo && !unsub then some s!"C19.sweep: {repr rt}/{n} was removed but is still in the interest set"
     else if mustGo && !(o.reqs.any (fun q => q.rt = rt && !q.names.contains n)) then some s!"C19.sweep: no request without {repr rt}/{n} was sent"
@@ -220,5 +227,18 @@ def c19tick (pre o : Obs) (idleSince : List (RType × String × Nat)) (now : Nat
     match RType.all.filter (fun rt => (o.cache rt).any (fun e => (lookupC pre rt e.1) != some e.2)) with
     | rt :: _ => some s!"C19: the sweep changed a cached value of {repr rt}"
     | [] => none
+
+/-- C19: an update that names an entry the sweep evicted and unsubscribed must not bring it back -/
+def c19crossed (pre o : Obs) (evicted : List (RType × String)) : Option String :=
+  match evicted.filter (fun (rt, n) => !((pre.interest rt).getD []).contains n && (lookupC pre rt n).isNone && (lookupC o rt n).isSome) with
+  | (rt, n) :: _ => some s!"C19.eviction_stands: {repr rt}/{n} was evicted and unsubscribed by the sweep; an update that was already on its way put it back into the cache although nobody subscribes to it (it will never be updated again)"
+  | [] => none
+
+/-- C19: the lookup of an evicted name subscribes again (a request naming it follows) -/
+def c19relookup (pre o : Obs) (rt : RType) (n : String) (sendOk : Bool) : Option String :=
+  if ((pre.interest rt).getD []).contains n then none
+  else if !((o.interest rt).getD []).contains n then some s!"C19.relookup_subscribes: {repr rt}/{n} was evicted; the later lookup did not put it back into the interest set (it returned {o.get})"
+  else if sendOk && !(o.reqs.any (fun q => q.rt = rt && q.names.contains n)) then some s!"C19.relookup_subscribes: {repr rt}/{n} was evicted; the later lookup sent no request naming it"
+  else none
 
 end XdsVerif.Spec.Hist
